@@ -409,8 +409,10 @@ class Agent(dbus.service.Object):
                 )
 
             elif isinstance(msg.payload, (TransferSeg, TransferEnd)):
+                # (a segment without data has no data layer at all)
+                seg_data = bytes(msg.payload.payload)
                 self.__logger.debug('Received transfer-seg xfer_num=%d, seg_idx=%d, size %d',
-                                    msg.payload.xfer_num, msg.payload.seg_idx, len(msg.payload.payload.load))
+                                    msg.payload.xfer_num, msg.payload.seg_idx, len(seg_data))
                 key = (conv.key, msg.payload.xfer_num)
                 xfer: RxTransfer = self._rx_progres.setdefault(key, RxTransfer())
 
@@ -420,7 +422,7 @@ class Agent(dbus.service.Object):
                         xfer.got_end = msg.payload.seg_idx
 
                     xfer.got_idx |= apiIntInterval.singleton(msg.payload.seg_idx)
-                    xfer.data[msg.payload.seg_idx] = msg.payload.payload.load
+                    xfer.data[msg.payload.seg_idx] = seg_data
                     self.__logger.debug('Current transfer state %s of %s', xfer.got_idx, xfer.got_end)
                     glib.timeout_add(RX_XFER_TIMEOUT_MS, self._rx_progress_cancel, key)
 
